@@ -150,6 +150,46 @@ def vec_features(case):
     return trace, kinds
 
 
+
+def proj_compute(body):
+    return body.split(" | S ")[0]
+
+
+def compute_features(case):
+    head = case["ops"][0] if case["ops"] else ""
+    m = next((w[2:] for w in head.split() if w.startswith("m=")), "?")
+    trace, kinds = [m], set()
+    n_comp = 0
+    for op, obs in zip(case["ops"][1:], case["impl"][1:]):
+        w = op.split()
+        tag = w[0]
+        if tag == "compute":
+            n_comp += 1
+            cap = w[2] if len(w) > 2 else "0"
+            mf = w[1] if len(w) > 1 else "0"
+            tag = f"compute:{'resume' if mf != '0' else 'zero'}:{'small' if cap in ('1','2','3','7') else 'big'}"
+            if cap in ("1", "2", "3", "7"):
+                kinds.add("multi-batch")
+            if mf != "0":
+                kinds.add("resume")
+        elif tag == "trunc":
+            kinds.add("truncate-regrow")
+        elif tag == "bump":
+            kinds.add("version-bump")
+        elif tag in ("treimport", "twrite", "tflush"):
+            kinds.add("target-io")
+        trace.append(tag)
+    if n_comp >= 2:
+        kinds.add("repeated")
+    return trace, kinds
+
+
+COMPUTE_RULE = (
+    "one method per case (32 exact methods, two store back-ends), histories of append / truncate-and-regrow / redundant compute / target write, flush, "
+    "re-import / source version bump; each compute call picks max_from ≤ first changed index and a batch capacity from {prod,1,2,3,7,64}; non-trivial = at least two of: "
+    "multi-batch call, resumed call (max_from>0), truncate-and-regrow, version bump, target IO, repeated calls; distinct = distinct (method, op-tag sequence)"
+)
+
 VEC_RULE = (
     "histories generated by harness/src/vec_engine.rs over 14 format×type combinations (BytesVec u16/u64/u128/f32, ZeroCopyVec u32/u64, "
     "PcoVec u32/u64/i64/f64, LZ4Vec u64/u128, ZstdVec u16/u32), values incl. 0, MAX, sign boundary and random bit patterns, bulk pushes of "
@@ -173,6 +213,9 @@ ENGINES = [
 
 ENGINES.append({"name": "vec", "path": "harness/src/vec_engine.rs + lean/Driver/VecProto.lean", "serves_properties": ["C03", "C04", "C07", "C13", "C16"],
      "kind_free_text": "generates vector histories (plain edits, commit/rollback, damaged change records, refusals), runs them on real BytesVec/ZeroCopyVec/PcoVec/LZ4Vec/ZstdVec and on the compiled Lean model, compares length, stored/real length, stamp, deleted slots, contents hash, change directory and page index after every request; model-free oracles: reference vector, committed-state stack, page-index well-formedness, unchanged-after-refusal"})
+
+ENGINES.append({"name": "compute", "path": "harness/src/compute_engine.rs + lean/Driver/ComputeProto.lean", "serves_properties": ["C06", "C19"],
+     "kind_free_text": "32 exact EagerVec::compute_* methods over histories of source appends, truncate-and-regrow, redundant calls, target write/flush/re-import and source version bumps, with the internal batch capacity forced to 1/2/3/7/64 elements; three-way comparison: incremental result = from-scratch run of the implementation = defining formula evaluated by the Lean driver; closure evaluation log and recorded version for C19"})
 
 NOT_CLAIMED = {}
 
@@ -223,6 +266,28 @@ PROPS = {
         level_text="Lean 4 theorems: after any undo the restored state is the baseline of the next change record (C04_baseline: previous stored length = stored length, previous buffer = buffer, stamp = recorded stamp); for compressed formats, whatever mixture of disk and buffer currently holds the logical contents L, undoing a record yields exactly L.take(ts) ++ truncated ++ previous buffer (C04_comp_undo_logical), so consecutive undos compose, and the logical stored length never exceeds the real one afterwards; rollback reads only the record filed under the current stamp. The end-to-end statement over commit histories (all formats, retention 1/2/3/10, continuations after rollback incl. re-import) is validated by the correspondence against a stack-of-committed-states oracle. Raw-format undo (overlay map) is covered by the correspondence only.",
         level_note="Trusted: Lean kernel + standard axioms; hand-written model; harness. The pinned tree violated C04 in three ways (bare rollback() left a stale baseline; compressed chained rollback across a truncating commit; raw write after a rolled-back truncation failed and lost the buffer): all three repaired by fix: commits, listed as fixed in known_findings.json.",
         technique="Lean 4 proof (list algebra of the undo on the logical contents) + lock-step correspondence with a committed-state-stack oracle",
+    ),
+    "C06": dict(
+        lean="AnyDB.Props.C06",
+        runs=[
+            Run("compute", "methods", [], (640, 24), (12000, 60), proj_compute, ["C06", "panic"], compute_features, clean=False),
+        ],
+        rule=COMPUTE_RULE,
+        assumptions=["values are small usize numbers (no overflow): exact arithmetic as the property says", "hook H3 (verif_hooks) lowers MAX_CACHE_SIZE at run time so that multi-batch paths execute with small data"],
+        level_text="Lean 4 theorems for the accumulator families (cumulative, cumulative_binary, cumulative_transformed_binary, cumulative_count, all_time_high — any step function f and initial state): the batch closure resuming from the last stored output extends a correct prefix to the next correct prefix (C06_batch_extends), repeat_until_complete terminates on the full formula (C06_run_correct), after ANY change of the sources from index p on with max_from ≤ p the stored result equals the from-scratch formula and is as long as the source (C06_incremental_eq_scratch), independent of the batch capacity (C06_batch_independent), idempotent under redundant calls, and reset on version change. For all 32 exact methods the defining formula is in the model (Compute.spec) and every implementation result is compared three ways: incremental = from-scratch run on a fresh vector = Lean formula. Window / lookback / index-group / multi-source incremental algorithms are not yet modelled (formula + three-way tie only).",
+        level_note="Trusted: Lean kernel + standard axioms; hand-written model; harness; hook H3. Known finding F3 (all_time_low_ with exclude_default resumes from a possibly excluded output) is kept with its Lean counterexample and a replayed witness.",
+        technique="Lean 4 proof (induction on fuel of repeat_until_complete; scan algebra) for accumulator families + three-way differential (incremental / from-scratch / Lean formula) for all exact methods",
+    ),
+    "C19": dict(
+        lean="AnyDB.Props.C19",
+        runs=[
+            Run("compute", "versions", ["--c19"], (200, 24), (3000, 60), proj_compute, ["C19", "C06", "panic"], compute_features),
+        ],
+        rule=COMPUTE_RULE,
+        assumptions=["the closure passed to compute_to / compute_transform records the indices it is called with; the recorded version is read from the header"],
+        level_text="Lean 4 theorems on computeInit (validate_computed_version_or_reset ∘ truncate_if_needed) + runBatches: a differing version leaves nothing of the old results and the closure is evaluated on exactly [0,target) (C19_changed); an equal version keeps the first min(max_from, stored) elements verbatim and evaluates exactly [min(max_from, stored), target) (C19_unchanged); whatever was stored under another version, the result is the formula of the current sources (C19_never_mixed, via C06). Tied to the code by logging closure: evaluation indices, kept prefix, recorded version before/after each call and across write + re-import, with source version bumps in the history.",
+        level_note="Trusted: Lean kernel + standard axioms; hand-written model; harness. Header persistence (the version is rewritten by the next write) is validated, not proved.",
+        technique="Lean 4 proof over the compute_init model + evaluation-log correspondence",
     ),
     "C07": dict(
         lean="AnyDB.Props.C07",
@@ -321,7 +386,8 @@ def run_property(ctx, cfg, replay):
         if k.get("status") != "known" or not k.get("witness"):
             continue
         wp = os.path.join(ROOT, k["witness"])
-        run = next((r for r in runs if r.engine == k["match"].get("engine", r.engine)), runs[0])
+        km = k["match"][0] if isinstance(k["match"], list) else k["match"]
+        run = next((r for r in runs if r.engine == km.get("engine", r.engine)), runs[0])
         ops = open(wp).read().splitlines()
         case = rerun_case(ctx, run, ops, tag="known")
         f = analyse_case(run, case)
@@ -466,7 +532,7 @@ def handle_failure(ctx, run, case, f, known, shrink_it, origin):
     else:
         # implementation ≠ model while the property oracle is satisfied: the proof no longer speaks
         # about this code.  Search the neighbourhood for a property-level failure.
-        found = neighbourhood_search(ctx, run)
+        found = neighbourhood_search(ctx, run, known)
         if found:
             c2, f2 = found
             small = shrink(ctx, run, c2, "oracle")
@@ -478,7 +544,7 @@ def handle_failure(ctx, run, case, f, known, shrink_it, origin):
             ctx.violation(f"{run.name}_diff", payload, nofail=True)
 
 
-def neighbourhood_search(ctx, run):
+def neighbourhood_search(ctx, run, known=()):
     """more cases with other seeds, oracle only"""
     saved = (run.quick, run.thorough, run.driver, ctx.seed)
     try:
@@ -487,7 +553,7 @@ def neighbourhood_search(ctx, run):
             cases = exec_stream(ctx, run, ctx.tier)
             for c in cases:
                 f = analyse_case(run, c)
-                if f and f[0] == "oracle":
+                if f and f[0] == "oracle" and match_known(known, run, c, f) is None:
                     return c, f
     finally:
         run.quick, run.thorough, run.driver, ctx.seed = saved
